@@ -616,3 +616,44 @@ def meta_reapply(run, model, rule="C03.meta-reapply", rule_order="C16.meta-order
         run.check(bad is None, rule, fi.qual, "namespace pass < super().__new__ < add_invariant_checks(cls) whenever cls has __invariants__", bad or "", fi.loc())
         if rule_order:
             run.check(bad is None, rule_order, fi.qual, "the invariant wrapper is applied after the checker (outermost)", bad or "", fi.loc())
+
+
+def marker_agreement(run, model, rule="C03.wrapped-once"):
+    """A wrapper adding the invariant checks is recognised as one: the attribute each wrapping function sets on the
+    wrapper it returns is the attribute ``_already_decorated_with_invariants`` looks for.  With two spellings the
+    wrapper is wrapped again by every later ``invariant`` / subclass, and the invariants run once per layer."""
+    reader = model.func("_checkers._already_decorated_with_invariants")
+    rflow = get_flow(model, reader)
+    run.saw(rflow)
+    read = set()
+    for n in rflow.cfg.nodes:
+        for call, c, a in calls_in(n):
+            if isinstance(call.func, ast.Name) and call.func.id in ("getattr", "hasattr") and len(call.args) >= 2:
+                t = strip_sites(rflow.term(call.args[1], n))
+                if t[0] == "const":
+                    read.add(t[1])
+        if n.ast is not None:
+            for sub in ast.walk(n.ast):
+                if isinstance(sub, ast.Attribute) and isinstance(sub.ctx, ast.Load) and sub.attr.startswith("__is_"):
+                    read.add(repr(sub.attr))
+    if not read:
+        raise AnalysisError("%s: no attribute look-up by a constant name found (how is a wrapper recognised?)" % reader.qual)
+    for qual in ("_checkers._decorate_with_invariants", "_checkers._decorate_new_with_invariants"):
+        fi = model.func(qual)
+        flow = get_flow(model, fi)
+        run.saw(flow)
+        written = {}
+        for n in flow.cfg.nodes:
+            for call, c, a in calls_in(n):
+                if isinstance(call.func, ast.Name) and call.func.id == "setattr" and len(call.args) == 3:
+                    t = strip_sites(flow.term(call.args[1], n))
+                    v = strip_sites(flow.term(call.args[2], n))
+                    if t[0] == "const" and v == ("const", "True"):
+                        written[t[1]] = n
+            if n.kind == "stmt" and isinstance(n.ast, ast.Assign) and isinstance(n.ast.value, ast.Constant) and n.ast.value.value is True:
+                for tg in n.ast.targets:
+                    if isinstance(tg, ast.Attribute):
+                        written[repr(tg.attr)] = n
+        common = set(written) & read
+        where = list(written.values())[0] if written else None
+        run.check(bool(common), rule, fi.qual, "marks its wrapper with %s, which %s looks for" % (", ".join(sorted(common)), reader.name), "the wrapper is marked with %s, but %s looks for %s: the wrapper is not recognised and is wrapped again by every later decoration of the class or of a subclass -- the invariants then run once per layer" % (", ".join(sorted(written)) or "nothing", reader.name, ", ".join(sorted(read))), fi.loc(where) if where is not None else fi.loc(), None, first_line(where.stmt) if where is not None else None)
